@@ -225,6 +225,19 @@ func parent(prop string) {
 		}
 		r.NontrivialN(id, res.Keys)
 	}
+	if prop == "C09" {
+		// stage 1 (validation enumeration, engine E3) ran just before; embed what it covered
+		root := "/verif"
+		if d := os.Getenv("VERIF_OUT_ROOT"); d != "" {
+			root = d
+		}
+		if b, err := os.ReadFile(root + "/evidence/C09.stage1.json"); err == nil {
+			var ev map[string]interface{}
+			if json.Unmarshal(b, &ev) == nil {
+				r.Extra["stage1_validation_enumeration"] = ev["coverage"]
+			}
+		}
+	}
 	r.Extra["scenarios"] = table
 	r.Extra["monitor_antecedents"] = counters
 	r.Extra["deviation_alphabet"] = plan.Actions
